@@ -106,9 +106,24 @@ func (e *c18Env) consume(idx int) {
 	e.consumed[idx] = true
 }
 
+// c18Msg: envelope number id of a key. The demultiplexer routes by key alone, so the envelopes
+// come in every kind a peer sends - by id: a reset (1, 5, ..), a message (2, 6, ..), a
+// trailer with status (3, 7, ..), a header-only opening envelope (0, 4, ..) - and whichever
+// kind happens to be the first one of a key announces its connection.
 func c18Msg(id uint64, key string) *env.Rpc {
-	return &env.Rpc{Id: id, Header: &goatorepo.RequestHeader{Method: "/x/Y", Source: key, Destination: "srv",
-		Headers: []*goatorepo.KeyValue{{Key: "n", Value: fmt.Sprint(id)}}}, Body: &goatorepo.Body{Data: []byte(key)}}
+	r := &env.Rpc{Id: id, Header: &goatorepo.RequestHeader{Method: "/x/Y", Source: key, Destination: "srv",
+		Headers: []*goatorepo.KeyValue{{Key: "n", Value: fmt.Sprint(id)}}}}
+	switch id % 4 {
+	case 1:
+		r.Reset_ = &goatorepo.Reset{Type: "RST_STREAM"}
+		r.Trailer = &goatorepo.Trailer{}
+	case 2:
+		r.Body = &goatorepo.Body{Data: []byte(key)}
+	case 3:
+		r.Status = &goatorepo.ResponseStatus{Code: 0}
+		r.Trailer = &goatorepo.Trailer{}
+	}
+	return r
 }
 
 // c18Delivery: nk keys x per envelopes each, every arrival interleaving.
